@@ -89,6 +89,18 @@ impl V {
     }
 }
 
+/// does the value tree have at most `*left` nodes? (stops counting as soon as it has not)
+pub fn within_nodes(v: &V, left: &mut usize) -> bool {
+    if *left == 0 {
+        return false;
+    }
+    *left -= 1;
+    match v {
+        V::Arr(a) => a.seq.iter().all(|x| within_nodes(x, left)) && a.dict.iter().all(|(_, x)| within_nodes(x, left)),
+        _ => true,
+    }
+}
+
 /// strict structural equality (what `==` on two values of the same kind means)
 pub fn strict_eq(a: &V, b: &V) -> bool {
     match (a, b) {
@@ -874,6 +886,15 @@ impl<'i> Machine<'i> {
         match v {
             V::Str(s) if s.len() > self.lim.max_str => Err(Stop::Budget("string size")),
             V::Arr(a) if a.seq.len() > self.lim.max_arr.max(256) => Err(Stop::Budget("array size")),
+            // arrays nested into themselves (`rock x with x, x`) double with every step: bound the whole tree
+            V::Arr(_) => {
+                let mut left = 20_000usize;
+                if within_nodes(v, &mut left) {
+                    Ok(())
+                } else {
+                    Err(Stop::Budget("nested array size"))
+                }
+            }
             _ => Ok(()),
         }
     }
@@ -1272,6 +1293,9 @@ impl<'i> Machine<'i> {
                     }
                     Some(PushRhs::Poetic(elems)) => vec![V::Num(poetic_value(elems))],
                 };
+                for v in &vals {
+                    self.check_size(v)?;
+                }
                 self.write_primary(array, &mut |slot, lim| push(slot, vals.clone(), lim))?;
             }
             Stmt::Pop { array, dest } => {
